@@ -11,6 +11,15 @@ TB = ("Trusted: Lean 4.33 kernel; axioms ⊆ {propext, Classical.choice, Quot.so
       "(constants/tables regenerated from /repo) and the differential correspondence stream; ")
 
 NOTES = {
+    "C09": {
+        "text": "Kernel-checked refinement: for every element size/alignment, prefix width, base address and capacity, each of push / remove / element write / stable sort / reopen on a buffer in the documented "
+                "layout (LE count, padding, elements back to back, stale tail) produces the vector's outcome and re-establishes the layout with the same capacity (lifted to all histories by induction, "
+                "starting from init on any openable buffer); on every buffer whatsoever a failed push/remove leaves all bytes identical (the model stores the element only after the new length is known "
+                "to fit, as the repaired code does); a buffer of size_of(n) bytes has capacity n.",
+        "design_ref": "§5 C09",
+        "note": TB + "capacity < usize::MAX is assumed (memory is smaller than the address space); Rust's slice sort_by is modelled by Lean's stable List.mergeSort.",
+        "technique": "Lean 4 refinement theorem + induction over operation histories (kernel-checked) + differential correspondence on raw buffers after every operation",
+    },
     "C10": {
         "text": "Kernel-checked for every byte string, base address, element size/alignment and prefix width <= 16 bytes: unpack / unpack_mut / init never panic; a success has length <= capacity = "
                 "(buffer - header)/element size (0 and an empty data region for zero-sized elements), an aligned data region and every visible element inside the buffer; short, sloppy, misaligned or "
